@@ -10,9 +10,12 @@
    - C01_scored_convex_shape_packing_no_overlap: with the radius the code computes, and convexity / closedness
      assumed of the SHAPE only (rigid placements keep them: C01_placed_convex), the far case is excluded too
      (C01_inside_within_radius: a closed convex polygon lies within the circle through its farthest vertex;
-     C01_far_convex_polygons_disjoint): two placed copies share NO interior point, up to nesting. *)
+     C01_far_convex_polygons_disjoint): two placed copies share NO interior point, up to nesting;
+   - C01_polygon_closed / C01_polygon_convex: the built-in regular polygon LineShape::polygon(n) (the model's
+     `polygon`, compared with the code's items on every case) IS closed and convex for every n >= 3, so
+     C01_scored_regular_polygon_packing_no_overlap has no premise about the shape left. *)
 From Coq Require Import ZArith List Bool Reals Lra. Import ListNotations.
-From PV Require Import Num NumR model.Geom proofs.LatticeFacts proofs.SiteFacts proofs.OverlapFacts proofs.ConvexFacts proofs.EnclosedFacts proofs.PackingFacts proofs.PolygonFacts proofs.RadiusFacts proofs.PolygonPacking.
+From PV Require Import Num NumR model.Geom proofs.LatticeFacts proofs.SiteFacts proofs.OverlapFacts proofs.ConvexFacts proofs.ShapeFacts proofs.EnclosedFacts proofs.PackingFacts proofs.PolygonFacts proofs.RadiusFacts proofs.PolygonPacking.
 
 Theorem C01_scored_disc_packing_has_no_overlap :
   forall (st : pstateR) (l : list discR), wf_state st -> rigid_inputs st -> p_shape NumR st =
@@ -160,4 +163,27 @@ Theorem C01_placed_convex :
     convex (sigma * det2 t) (placed_poly t l).
 Proof. exact placed_convex. Qed.
 Print Assumptions C01_placed_convex.
+
+Theorem C01_polygon_closed :
+  forall n : nat, 3 <= n -> closed (polygon NumR PI sin cos n).
+Proof. exact polygon_closed. Qed.
+Print Assumptions C01_polygon_closed.
+
+Theorem C01_polygon_convex :
+  forall n : nat, 3 <= n -> convex (-1) (polygon NumR PI sin cos n).
+Proof. exact polygon_convex. Qed.
+Print Assumptions C01_polygon_convex.
+
+Theorem C01_scored_regular_polygon_packing_no_overlap :
+  forall (st : pstateR) (n : nat) (fmin_ : R), 3 <= n -> wf_state st -> rigid_inputs st ->
+    p_shape NumR st = Poly (polygon NumR PI sin cos n) -> p_radius NumR st = shape_radius NumR
+    fmin_ (p_shape NumR st) -> packed_score NumR st <> None -> forall (i j : nat) (a b : Z), i <
+    length (p_syms NumR st) -> j < length (p_syms NumR st) -> ~ (i = j /\ a = 0%Z /\ b = 0%Z) ->
+    let l := polygon NumR PI sin cos n in let P := placed_poly (copy st i) l in let Q :=
+    placed_poly (image st j a b) l in forall x : pt, strictly_inside (-1 * det2 (copy st i)) P x
+    -> strictly_inside (-1 * det2 (image st j a b)) Q x -> (forall e : segR, In e P ->
+    strictly_inside (-1 * det2 (image st j a b)) Q (seg_start e)) \/ (forall f : segR, In f Q ->
+    strictly_inside (-1 * det2 (copy st i)) P (seg_start f)).
+Proof. exact scored_regular_polygon_packing_no_overlap. Qed.
+Print Assumptions C01_scored_regular_polygon_packing_no_overlap.
 
